@@ -214,6 +214,21 @@ def split_outputs(text):
     return res
 
 
+LAST_STUCK = None
+
+
+def stuck_case(cases, partial):
+    """the harness flushes its output after every case: the case it did not finish (hang / crash of the process)
+    is the first one whose output block is missing or incomplete.  returns (index, number of answered ops)"""
+    outs = split_outputs(partial or "")
+    for idx, c in enumerate(cases):
+        if idx >= len(outs):
+            return (idx, 0)
+        if len(outs[idx]) < len(c["ops"]):
+            return (idx, len(outs[idx]))
+    return None
+
+
 def exec_both(pid, driver, cases, work, tag, timeout):
     """run impl and model on cases. returns (impl_outs, model_outs, fails, err)"""
     cf = os.path.join(work, f"{tag}.cases")
@@ -222,13 +237,21 @@ def exec_both(pid, driver, cases, work, tag, timeout):
     ff = os.path.join(work, f"{tag}.fails")
     af = os.path.join(work, f"{tag}.annot")   # case file + the runner's annotations = model driver input
     env = dict(GOENV, GOMEMLIMIT=os.environ.get("GOMEMLIMIT", "12GiB"))
+    global LAST_STUCK
+    LAST_STUCK = None
     with open(cf) as fin:
+        pr = subprocess.Popen([os.path.join(HARN, "bin", "vh"), pid, "exec", "--fails", ff, "--annot", af], stdin=fin,
+                              stdout=subprocess.PIPE, stderr=subprocess.PIPE, text=True, env=env)
         try:
-            i = subprocess.run([os.path.join(HARN, "bin", "vh"), pid, "exec", "--fails", ff, "--annot", af], stdin=fin,
-                               stdout=subprocess.PIPE, stderr=subprocess.PIPE, text=True, timeout=timeout, env=env)
+            so, se = pr.communicate(timeout=timeout)
         except subprocess.TimeoutExpired:
+            pr.kill()
+            so, se = pr.communicate()
+            LAST_STUCK = stuck_case(cases, so)
             return None, None, [], "impl timeout"
+        i = subprocess.CompletedProcess(pr.args, pr.returncode, so, se)
     if i.returncode != 0:
+        LAST_STUCK = stuck_case(cases, i.stdout)
         return None, None, [], "impl harness exited %d: %s" % (i.returncode, i.stderr[-1500:])
     with open(af if os.path.exists(af) else cf) as fin:
         try:
@@ -383,12 +406,14 @@ def body(args, cfg, pid, tier, seed, driver, work, cmds, t0):
 
     io = mo = None
     fails = []
+    MAIN_STUCK = None
     tmo = cfg.get("timeout_quick", 900) if tier == "quick" else cfg.get("timeout_thorough", 7200)
     lean_ok = not any(p.startswith("driver build failed") for p in problems)
     if not harness_broken and lean_ok:
         io, mo, fails, e = exec_both(pid, driver, cases, work, "main", tmo)
         if e:
             harness_broken = e
+            MAIN_STUCK = LAST_STUCK
 
     findings = []   # dicts: signature, kind, case, ops, detail
     known, fixed = load_known()
@@ -504,7 +529,17 @@ def body(args, cfg, pid, tier, seed, driver, work, cmds, t0):
         n += 1
         obj = {"property": pid, "signature": f"{pid}/harness", "kind": "harness", "seed": seed, "tier": tier,
                "no_failing_input_found": True, "broken": "correspondence could not run: " + str(harness_broken), "ops": []}
-        violations.append((write_replay(pid, seed, n, obj), True))
+        nofail = True
+        if MAIN_STUCK is not None and MAIN_STUCK[0] < len(cases):
+            # the real code did not get through this case (hang until the time limit, or the process died): that case
+            # is the failing input
+            sc = cases[MAIN_STUCK[0]]
+            obj.update({"no_failing_input_found": False, "signature": f"{pid}/stuck", "kind": "stuck", "found_in_case": sc["id"],
+                        "ops": sc["ops"], "answered_ops": MAIN_STUCK[1],
+                        "detail": "the implementation did not finish this case (%s); %d of %d ops were answered before" % (
+                            str(harness_broken)[:200], MAIN_STUCK[1], len(sc["ops"]))})
+            nofail = False
+        violations.append((write_replay(pid, seed, n, obj), nofail))
 
     # ---- evidence
     distinct = {}
